@@ -399,6 +399,11 @@ func (x *Exec) atReturn(s *State, f *ssa.Function, fc, fieldC *FuncContract, arg
 	}
 	pos := f.Pos()
 	if fc != nil {
+		{
+			e := x.specEnvFor(s, "ensures")
+			bindResults(e)
+			x.applyGhostSets(s, fc, e)
+		}
 		x.applyInstancesEnv(s, fnApplies(fc), func() *specEnv { e := x.specEnvFor(s, "ensures"); bindResults(e); return e })
 		for i, cl := range fc.clauses("ensures") {
 			env := x.specEnvFor(s, "ensures")
